@@ -74,6 +74,8 @@ pub enum Op {
     Vacuum,
     /// close, backup, restore into a fresh path, continue on the restored copy
     BackupRestore,
+    /// backup, two more transactions, restore over the database's own files
+    BackupGrowRestoreInPlace,
 }
 
 fn key_name(k: &str) -> String {
@@ -106,6 +108,7 @@ impl Op {
             Op::DropOpen => "DropOpen".into(),
             Op::Vacuum => "Vacuum".into(),
             Op::BackupRestore => "BackupRestore".into(),
+            Op::BackupGrowRestoreInPlace => "BackupGrowRestoreInPlace".into(),
         }
     }
     pub fn show(&self) -> String {
@@ -132,7 +135,7 @@ impl Op {
     pub fn is_maintenance(&self) -> bool {
         matches!(
             self,
-            Op::Compact | Op::Checkpoint | Op::CreateIndex { .. } | Op::CloseOpen | Op::DropOpen | Op::Vacuum | Op::BackupRestore
+            Op::Compact | Op::Checkpoint | Op::CreateIndex { .. } | Op::CloseOpen | Op::DropOpen | Op::Vacuum | Op::BackupRestore | Op::BackupGrowRestoreInPlace
         )
     }
 }
@@ -812,6 +815,30 @@ impl Sut {
                 let target = newbase.with_extension("ndb");
                 catch(|| nervusdb::BackupManager::restore_from_backup(&bdir, info.id, &target).map_err(|e| format!("restore: {e}"))).and_then(|r| r)?;
                 self.base = newbase;
+                self.reopen()
+            }
+            Op::BackupGrowRestoreInPlace => {
+                // backup of the closed database, then the database grows, then the backup is restored over the
+                // database's own (longer) files
+                let db = self.db.take().expect("open");
+                catch(|| db.close().map_err(|e| format!("close: {e}"))).and_then(|r| r)?;
+                self.generation += 1;
+                let bdir = self.dir.join(format!("bk{}", self.generation));
+                std::fs::create_dir_all(&bdir).map_err(|e| e.to_string())?;
+                let base = self.base.clone();
+                let info = catch(|| nervusdb::backup(&base, &bdir).map_err(|e| format!("backup: {e}"))).and_then(|r| r)?;
+                self.reopen()?;
+                let grow = [Op::Tx(vec![Op::CreateNode { e: 77, labels: vec!["A"] }, Op::SetNodeProp { e: 77, k: "k", v: Val::I(7) }]), Op::Tx(vec![Op::CreateNode { e: 78, labels: vec!["B"] }, Op::CreateEdge { s: 77, t: "R", d: 78 }])];
+                let mut m = model.clone();
+                for g in &grow {
+                    self.write_ops(&flatten(std::slice::from_ref(g)), &m, true).map_err(|e| format!("growth after backup: {e}"))?;
+                    m.apply(g);
+                }
+                drop(self.db.take());
+                self.ids.remove(&77);
+                self.ids.remove(&78);
+                let target = base.with_extension("ndb");
+                catch(|| nervusdb::BackupManager::restore_from_backup(&bdir, info.id, &target).map_err(|e| format!("restore in place: {e}"))).and_then(|r| r)?;
                 self.reopen()
             }
             single => self.write_ops(std::slice::from_ref(single), model, true),
